@@ -75,9 +75,19 @@ def snapshot(parser):
 
     def val(x):
         return dict(x) if isinstance(x, dict) else x
-    return (tab(parser.on_going_events), tab(parser.on_going_traces), dict(parser.global_strings),
-            dict(parser.tids_names), dict(parser.threads_pids), dict(parser.pids_names),
-            val(parser.last_data_newthread), val(parser.last_data_exec))
+    # every mutable attribute of the parser object is part of the state (robust to renamed / added attributes)
+    out = []
+    for name, value in sorted(vars(parser).items()):
+        if name in ('handlers', 'qualifiers_actions', 'trace_codes'):
+            continue
+        if isinstance(value, dict) and value and all(isinstance(v, dict) for v in value.values()):
+            try:
+                out.append((name, tab(value)))
+                continue
+            except Exception:
+                pass
+        out.append((name, repr(val(value)) if not isinstance(value, dict) else repr(sorted(value.items(), key=repr))))
+    return out
 
 
 def feed_recorded(history):
@@ -313,10 +323,47 @@ def long_windows(res, ctx, rng):
         res.count('long_window_histories')
 
 
+def repo_tests_under_contracts(res):
+    """The repository's own tests, run in a subprocess with the contracts attached."""
+    import json
+    import os
+    import subprocess
+    import sys
+    import tempfile
+    fd, out = tempfile.mkstemp(prefix='verif-contracts-', suffix='.json')
+    os.close(fd)
+    try:
+        env = dict(os.environ, VERIF_CONTRACT_REPORT=out)
+        p = subprocess.run([sys.executable, '-m', 'pytest', '-q', '-p', 'no:cacheprovider', '-p', 'vlib.pytest_contracts',
+                            os.path.join(core.REPO, 'tests')], cwd=core.REPO, env=env, capture_output=True, text=True,
+                           timeout=600)
+        rep = json.load(open(out)) if os.path.getsize(out) else None
+    except Exception as x:
+        res.notes['repo_tests_under_contracts'] = f'not run: {x!r}'
+        return
+    finally:
+        os.unlink(out)
+    if rep is None:
+        res.notes['repo_tests_under_contracts'] = 'no report: ' + p.stdout[-300:]
+        return
+    res.count('repo_test_window_invariant_evaluations', rep['window_invariant_evaluations'])
+    res.count('repo_test_from_kd_buf_contract_evaluations', rep['from_kd_buf_evaluations'])
+    res.count('repo_test_callstack_invariant_evaluations', rep['callstack_invariant_evaluations'])
+    res.notes['repo_tests_under_contracts'] = f'pytest exit {rep["exitstatus"]}'
+    for f in rep['window_invariant_failures']:
+        res.violation('c04-window-invariant', f'while the repository\'s own tests ran: {f}')
+    for k, w in rep['from_kd_buf_failures']:
+        res.violation(k, f'while the repository\'s own tests ran: {w}')
+    for f in rep['callstack_invariant_failures']:
+        res.violation('c15-list-invariant', f'while the repository\'s own tests ran: {f}')
+
+
 def run(ctx):
     install_invariant()
     res = core.Result()
     rng = ctx.rng
+    if ctx.shard == 0:
+        repo_tests_under_contracts(res)
     small_scope(res, ctx, rng)
     random_histories(res, ctx, rng)
     long_windows(res, ctx, rng)
